@@ -131,6 +131,16 @@ func Load(repoDir, goarch string, overlay map[string][]byte) (p *Prog, err error
 			p.alias = resolveRenames(pinned, collectSymbols(p.Pkgs))
 			for _, pkg := range p.Pkgs {
 				aliasByPkg.Store(pkg.Types, p.alias)
+				sc := pkg.Types.Scope()
+				for _, name := range sc.Names() {
+					if tn, ok := sc.Lookup(name).(*types.TypeName); ok {
+						if st, ok := tn.Type().Underlying().(*types.Struct); ok {
+							for i := 0; i < st.NumFields(); i++ {
+								fieldOwner.Store(st.Field(i), [2]string{pkg.PkgPath, name})
+							}
+						}
+					}
+				}
 			}
 		}
 	}
@@ -246,4 +256,25 @@ func aliasFor(pk *types.Package) *aliasTable {
 		return v.(*aliasTable)
 	}
 	return nil
+}
+
+// fieldOwner: struct field -> (package path, name of the named struct type that declares it).
+var fieldOwner sync.Map
+
+// pinFieldName: the name of a struct field as spelled on the pinned tree.
+func pinFieldName(f *types.Var) string {
+	if f == nil {
+		return ""
+	}
+	o := f.Origin()
+	v, ok := fieldOwner.Load(o)
+	if !ok {
+		return f.Name()
+	}
+	own := v.([2]string)
+	t := aliasFor(f.Pkg())
+	if t == nil || len(t.rev) == 0 {
+		return f.Name()
+	}
+	return t.pinned("field", own[0], t.pinned("type", own[0], "", own[1]), f.Name())
 }
